@@ -129,6 +129,14 @@ theorem jinv_step {ls : List Label} {s s' : St} {l : Label} (hj : JInv ls s) (hs
         · exact Or.inl (Or.inr (Or.inl h))
         · exact Or.inl (Or.inr (Or.inr h))
     cases a with
+    | die =>
+      simp only [sStep] at hd
+      split at hd <;> simp at hd; subst hd
+      refine ⟨⟨j1, ?_, ?_, ?_, j5, j6⟩, rfl⟩
+      · rw [count_snoc, hnd]; simpa [Label.isSigwait] using j2
+      · rw [count_snoc]; intro hc
+        exact ⟨(j3 (by simpa [Label.isSigwait] using hc)).1, Or.inr (Or.inr rfl)⟩
+      · intro _; exact Or.inr (Or.inr (Or.inr (Or.inr (Or.inr rfl))))
     | sigwait g =>
       simp only [sStep] at hd
       split at hd <;> (try split at hd) <;> simp at hd; subst hd
